@@ -293,6 +293,101 @@ def link_layer_loop(ctx, n_frames):
     ctx.sample({"link_layer_script": {"frames": len(frames), "passed_mac_filter": len(want)}})
 
 
+def cv2x_link_layer_loop(ctx, n_frames):
+    """the two loops of PythonCV2XLinkLayer (receive_process -> queue -> callback_handler_loop) on a scripted stand-in for
+    the native binding: every non-empty read must reach the callback with the technology byte stripped, in order, and the
+    callback thread must only end on the stop signal"""
+    import queue
+    import sys
+    import types
+    name = "flexstack.linklayer.cv2xlinklayer"
+    saved = sys.modules.get(name)
+    stub = types.ModuleType(name)
+
+    class CV2XLinkLayer:                                # stands in for the pre-compiled Qualcomm binding
+        def __init__(self, *a, **k):
+            pass
+
+        def send(self, data):
+            pass
+
+        def receive(self):
+            return b""
+    stub.CV2XLinkLayer = CV2XLinkLayer
+    sys.modules[name] = stub
+    try:
+        import importlib
+        mod = importlib.import_module("flexstack.linklayer.cv2x_link_layer")
+        cls = mod.PythonCV2XLinkLayer
+        rng = ctx.rng
+        rs.VCLOCK.set_ms(1_700_000_800_000)
+        st = rs.Station(area_alg="SIMPLE")
+        sc = rs.Scenario(rng, st, n_sources=3)
+        script = []
+        for e in [e for e in sc.build(n_frames) if e["ev"] == "rx"]:
+            script.append(b"\x03" + e["pkt"])
+            r = rng.random()
+            if r < 0.35:
+                script.append(b"\x03" + mutate(rng, e["pkt"]))
+            elif r < 0.5:
+                script.append(bytes(rng.randrange(256) for _ in range(rng.randrange(0, 60))))
+            elif r < 0.6:
+                script.append(rng.choice([b"", b"\x03", b"\x00", b"\x03\x00", b"\xff"]))   # boundary sizes
+        script += [b"\x03", b"\x03" + script[0][1:]]      # a one-byte frame, then valid traffic again
+        stop = threading.Event()
+        pending = list(script)
+
+        class Scripted:
+            def receive(self_inner):
+                if not pending:
+                    stop.set()
+                    return b""
+                f = pending.pop(0)
+                if not pending:
+                    stop.set()
+                return f
+        ll = cls.__new__(cls)
+        ll.link_layer = Scripted()
+        delivered = []
+
+        def cb(pkt):
+            delivered.append(pkt)
+            st.router.gn_data_indicate(pkt)
+        ll.receive_callback = cb
+        q = queue.Queue()
+        inp = {"op": "cv2x_link_layer_loops", "frames": len(script)}
+        try:
+            ll.receive_process(q, stop)
+        except Exception as e:  # noqa: BLE001
+            ctx.property_failure("loop_terminated", inp, "the C-V2X receive process raised", None, f"{type(e).__name__}: {e}")
+        queued = q.qsize()
+        q.put(None)                                        # what stop() sends
+        th = threading.Thread(target=ll.callback_handler_loop, args=(q,), daemon=True)
+        th.start()
+        th.join(timeout=60)
+        want = [f[1:] for f in script if f]
+        ctx.count(len(script), "cv2x_link_layer_frames")
+        if th.is_alive():
+            ctx.property_failure("loop_stuck", inp, "the C-V2X callback loop did not finish the script", None, None)
+        if pending:
+            ctx.property_failure("loop_terminated", inp, "the C-V2X receive process stopped before all frames were read", 0, len(pending))
+        if delivered != want:
+            k = next((i for i, (a, b) in enumerate(zip(delivered, want)) if a != b), min(len(delivered), len(want)))
+            ctx.property_failure("loop_terminated" if len(delivered) < len(want) else "cv2x_delivery", inp,
+                                 "frames handed to the router by the C-V2X link layer differ from the non-empty reads with the "
+                                 "technology byte stripped (a frame ended the callback loop or was altered)",
+                                 {"count": len(want), "first_difference_at": k, "frame": want[k].hex() if k < len(want) else None},
+                                 {"count": len(delivered), "queued": queued})
+        ctx.nontriv(("cv2x_loop", len(script), len(want)))
+        ctx.sample({"cv2x_link_layer_script": {"reads": len(script), "delivered": len(delivered)}})
+    finally:
+        if saved is not None:
+            sys.modules[name] = saved
+        else:
+            sys.modules.pop(name, None)
+            sys.modules.pop("flexstack.linklayer.cv2x_link_layer", None)
+
+
 def st_src(rng):
     return [0x0A, 0x0B, 0x0C, 0x0D, 0x10, rng.randrange(0, 4)]
 
@@ -385,13 +480,14 @@ def run(ctx):
                 "(0..1500), grammar-based frames (one field set to a reserved / unknown / boundary value, truncation at every "
                 "header boundary +-1, zero-sized areas, RHL > MHL, RHL 0, secured next-header) and mutations of captured frames "
                 "(bit flips, substitutions, truncation, extension); every event is compared with the model and the state after a "
-                "discarded frame must be unchanged; the real RawLinkLayer.receive thread is fed a script of frames; CA/DEN/VRU "
+                "discarded frame must be unchanged; the real RawLinkLayer.receive thread and the two loops of PythonCV2XLinkLayer (native binding replaced by a scripted stand-in) are fed scripts of frames incl. boundary sizes; CA/DEN/VRU "
                 "reception managers get undecodable payloads; non-trivial = the frame caused a transmission or delivery")
     rs.stack.patch_time()
     if ctx.tier == "quick":
         for _ in range(12):
             stream_history(ctx, 40, 12)
         link_layer_loop(ctx, 150)
+        cv2x_link_layer_loop(ctx, 150)
         facilities(ctx, 120)
         secured_station(ctx, 150)
     else:
@@ -399,6 +495,7 @@ def run(ctx):
             stream_history(ctx, 60, 20)
         for _ in range(10):
             link_layer_loop(ctx, 400)
+            cv2x_link_layer_loop(ctx, 400)
         facilities(ctx, 3000)
         secured_station(ctx, 3000)
     ctx.exhaustive = False
